@@ -204,7 +204,8 @@ def rotate_case(draw):
     # days before the start day; negative: dated in the future (wrong clock, copied files)
     ages = draw(st.lists(st.one_of(st.integers(1, 40), st.integers(1, 40), st.integers(-6, -1)), min_size=ndated, max_size=ndated, unique=True))
     foreign = draw(st.lists(st.sampled_from(['notes.txt', 'zz-last.log', 'aa-first.log', 'root-backup.tar', 'root.log', 'archive/', '0000', 'root-old/',
-                                             'other-2020-01-01.log', 'root backup.log', 'root+io-2020-01-01.log', 'root2-2020-01-01.log']),
+                                             'other-2020-01-01.log', 'root backup.log', 'root+io-2020-01-01.log', 'root2-2020-01-01.log',
+                                             'root-0.log', 'root-2020-01-06.old.log', 'root-2024-03-01-copy.log', 'root-old.log']),
                             max_size=3, unique=True))
     return {'kind': 'rotate', 'ages': sorted(ages), 'foreign': foreign, 'max_days': draw(st.integers(0, 5)),
             'steps': draw(st.lists(st.integers(1, 3), min_size=1, max_size=3))}
